@@ -84,9 +84,27 @@ func (t *Trace) Add(e Event) time.Duration {
 	t.mu.Lock()
 	e.T = time.Since(t.start)
 	t.ev = append(t.ev, e)
+	n := len(t.ev)
 	t.mu.Unlock()
+	if n > MaxEvents {
+		// A task that spins (re-dials, transmits or reads without ever waiting)
+		// never lets a bubble's clock advance and would only end when the shard
+		// runs out of memory.  Die here instead, on the spinning goroutine, with a
+		// message ./check attributes to the case that was running.
+		var last []string
+		t.mu.Lock()
+		for _, x := range t.ev[n-12:] {
+			last = append(last, x.String())
+		}
+		t.mu.Unlock()
+		panic(fmt.Sprintf("verif: event storm: more than %d events in one scenario without the scenario's clock advancing past %v (the task is spinning); last events: %v", MaxEvents, e.T, last))
+	}
 	return e.T
 }
+
+// MaxEvents bounds the events of one scenario (the largest legitimate ones have
+// a few tens of thousands).
+const MaxEvents = 1000000
 
 func (t *Trace) Now() time.Duration { return time.Since(t.start) }
 
